@@ -221,6 +221,28 @@ func cmdCheck(args []string) int {
 	e.slots = make(chan struct{}, e.workers)
 	// encoder validation runs alongside: the repository's own crypto-free tests
 	// executed inside the engine (DESIGN 4.5)
+	opsCh := make(chan string, 1)
+	go func() {
+		// operator-level differential validation (harness C00: Go integer / string
+		// semantics, engine vs native, on solver-chosen operands)
+		if prop == "C00" {
+			opsCh <- "n/a"
+			return
+		}
+		cmd := exec.Command(os.Args[0], "check", "C00", "-noevidence", "-j", "3")
+		cmd.Env = os.Environ()
+		out, _ := cmd.CombinedOutput()
+		res := "FAILED"
+		for _, l := range strings.Split(string(out), "\n") {
+			if strings.HasPrefix(l, "PASS property=C00") {
+				res = "C00 encoder differential: " + l
+			}
+			if strings.HasPrefix(l, "INCONCLUSIVE") && res == "FAILED" {
+				res = "FAILED: " + l
+			}
+		}
+		opsCh <- res
+	}()
 	selfCh := make(chan string, 1)
 	go func() {
 		cmd := exec.Command(os.Args[0], "selftest")
@@ -334,6 +356,11 @@ func cmdCheck(args []string) int {
 	e.selftest = selfRes
 	if strings.HasPrefix(selfRes, "FAILED") {
 		inconAll = append(inconAll, "encoder self-test (repository tests executed inside the engine) "+selfRes)
+	}
+	opsRes := <-opsCh
+	e.opsDiff = opsRes
+	if strings.HasPrefix(opsRes, "FAILED") {
+		inconAll = append(inconAll, "encoder differential harness C00 "+opsRes)
 	}
 	if replayFailed != "" {
 		inconAll = append(inconAll, "native replay failed: "+replayFailed)
